@@ -39,7 +39,7 @@ fn plan(tier: Tier) -> Vec<Unit> {
         Tier::Thorough => {
             let mut v = crate::util::split_budget_param("small", 2 * n - 1, 500, n as i64);
             v.push(Unit { kind: "pair-table", start: 0, count: 1, param: 0 });
-            v.extend(crate::util::split_budget("random", 8_000_000, 10_000));
+            v.extend(crate::util::split_budget("random", 60_000_000, 20_000));
             v
         }
         Tier::Miri => {
